@@ -19,7 +19,7 @@ func (e *Exec) boolTable(t *Term, v *Term, memo map[*Term]*bvTable) [4]uint64 {
 	if r, ok := e.ttCache[t]; ok {
 		return r
 	}
-	n := 1 << v.W
+	n := nvals(v)
 	var r [4]uint64
 	set := func(k int) { r[k>>6] |= 1 << (uint(k) & 63) }
 	full := func() [4]uint64 {
@@ -34,8 +34,8 @@ func (e *Exec) boolTable(t *Term, v *Term, memo map[*Term]*bvTable) [4]uint64 {
 		if t.K != 0 {
 			r = full()
 		}
-	case OpVar: // a Bool variable cannot be the (bit-vector) variable v
-		panic("boolTable: unexpected variable")
+	case OpVar: // the Bool variable itself: true for the value 1
+		set(1)
 	case OpNot:
 		a := e.boolTable(t.A[0], v, memo)
 		f := full()
@@ -106,7 +106,7 @@ func (e *Exec) bvTab(t *Term, v *Term, memo map[*Term]*bvTable) *bvTable {
 	if r, ok := memo[t]; ok {
 		return r
 	}
-	n := 1 << v.W
+	n := nvals(v)
 	r := new(bvTable)
 	switch t.Op {
 	case OpConst:
